@@ -3,6 +3,7 @@
 From Coq Require Import List Bool NArith ZArith.
 From PV Require Import Base.Str Base.Value Base.Wire Base.WireFast Run.RState.
 From PV Require Import Run.R01.
+From PV Require Import Run.R05.
 From PV Require Import Run.R06.
 From PV Require Import Run.R08.
 From PV Require Import Run.R09.
@@ -15,6 +16,7 @@ From PV Require Import Run.R15.
 From PV Require Import Run.R16.
 From PV Require Import Run.R17.
 From PV Require Import Run.R18.
+From PV Require Import Run.R19.
 Import ListNotations.
 Local Open Scope N_scope.
 
@@ -23,6 +25,7 @@ Definition BAD : value := VStr [66; 65; 68].
 Definition dispatch (st : rstate) (op : N) (arg : value) : option (rstate * value) :=
   match op / 100 with
   | 1 => run01 st op arg
+  | 5 => run05 st op arg
   | 6 => run06 st op arg
   | 8 => run08 st op arg
   | 9 => run09 st op arg
@@ -35,6 +38,7 @@ Definition dispatch (st : rstate) (op : N) (arg : value) : option (rstate * valu
   | 16 => run16 st op arg
   | 17 => run17 st op arg
   | 18 => run18 st op arg
+  | 19 => run19 st op arg
   | _ => None
   end.
 
